@@ -35,7 +35,9 @@ CPLX_OPS = ['mk.cplx\t0\tX\t-\th0 h1 + h0\t(.+)', 'mk.cplx\t0\tX\t-\th0 + h0 h1\
             'mk.cplx\t0\tX\t-\tNONE\t', 'mk.cplx\t0\tZ\t-\tNONE\t', 'mk.cplx\t0\tc1\t-\th0 + h0\t(+)',
             'mk.cplx\t0\t-\t-\th0 + h0\t(+)', 'mk.cplx\t0\t-\t-\th1\t.', 'drop\th2', 'drop\th3',
             # periodic strand order with a structure that is NOT invariant under the period
-            'mk.cplx\t0\tX\t-\th0 h1 + h0 h1\t(.+.)', 'mk.cplx\t0\tX\t-\th0 h1 + h0 h1\t.(+).', 'mk.cplx\t0\tP\t-\th0 h1 + h0 h1\t.(+).']
+            'mk.cplx\t0\tX\t-\th0 h1 + h0 h1\t(.+.)', 'mk.cplx\t0\tX\t-\th0 h1 + h0 h1\t.(+).', 'mk.cplx\t0\tP\t-\th0 h1 + h0 h1\t.(+).',
+            # isomers over the same strands: an inter-strand pair 5' of an intra-strand hairpin, and the hairpin first
+            'mk.cplx\t0\tH\t-\th0 h0 h0 + h0\t(()+)', 'mk.cplx\t0\tW\t-\th0 h0 h0 + h0\t()(+)', 'mk.cplx\t0\t-\t-\th0 + h0 h0 h0\t(+)()']
 MR_PRE = CPLX_PRE + ['mk.cplx\t0\tA\t-\th0\t.', 'mk.cplx\t0\tB\t-\th1\t.', 'mk.cplx\t0\tC\t-\th0 h1\t..', 'mk.cplx\t0\tC2\t-\th0 h1\t()']
 MR_OPS = ['mk.macro\t0\t-\th4 h5', 'mk.macro\t0\t-\th5 h4', 'mk.macro\t0\tC\th5 h4', 'mk.rxn\t0\t-\topen\th2 h2\th4', 'mk.rxn\t0\t-\topen\th2\th4',
           'mk.rxn\t0\tR\topen\th2\th4', 'mk.macro\t0\t-\th2 h3', 'mk.macro\t0\t-\th3 h2', 'mk.macro\t0\tB\th2 h3', 'mk.macro\t0\tA\th2', 'mk.macro\t0\tA\tNONE',
@@ -54,6 +56,30 @@ def handles_ok(line, held):
     return True
 
 
+def must_be_created(iw, line):
+    """independent of the registry keys: a well-formed complex none of whose rotations is live in the class, requested under a
+    free name, has to be created (a refusal means some OTHER complex answers to one of its rotations)"""
+    from .. import ref
+    f = line.split('\t')
+    if f[0] != 'mk.cplx' or f[4] == 'NONE':
+        return False
+    K = iw.classes['cplx'][int(f[1])]
+    try:
+        names = ['+' if t == '+' else str(iw.held[int(t[1:])]) for t in f[4].split(' ') if t]
+        rots = set(ref.rotations(names, f[5]))
+    except Exception:
+        return False
+    if ref.ref_pair_table(f[5]) is None or any(len(x) == 0 for x in f[5].split('+')):
+        return False
+    for o in list(K._instanceNames.values()):
+        if o.structure is None:
+            continue
+        if (tuple(map(str, o.sequence)), tuple(o.structure)) in rots:
+            return False
+    name = f[2] if f[2] != '-' else '%s%d' % (f[3] if f[3] != '-' else K.PREFIX, K.ID)
+    return name not in K._instanceNames
+
+
 def exhaustive(iw, res, pre, ops, depth, lines_out, impl_out, tag):
     n = 0
     for d in range(1, depth + 1):
@@ -67,7 +93,11 @@ def exhaustive(iw, res, pre, ops, depth, lines_out, impl_out, tag):
                 if not handles_ok(l, iw.held):
                     ok = False
                     break
+                fresh = must_be_created(iw, l)
                 o = hist.run_checked(iw, [l, 'names'], res, 'C01', check_domains=True, prefix=hist_lines)
+                if fresh and not (o[0].startswith('ret h') and o[0].split(' ')[2] == 'new'):
+                    res.violation('fresh-complex-not-created', {'history': hist_lines + [l]}, o[0],
+                                  'a new object (no rotation of this complex is live and the name is free)')
                 hist_lines += [l, 'names']
                 outs += o
             if not ok:
@@ -148,7 +178,7 @@ def run(res, proof):
     from .. import ref as _ref
     nsc = 0
     for names, sst in ((['a', 'b', '+', 'a'], '(.+)'), (['a', '+', 'b', '+', 'a', 'b'], '(+.+).'), (['a', 'b', '+', 'a', 'b'], '(.+.)'),
-                       (['a', '+', 'a', '+', 'b'], '(+)+.')):
+                       (['a', '+', 'a', '+', 'b'], '(+)+.'), (['a', 'a', 'a', '+', 'a'], '(()+)'), (['a', 'b', 'a', '+', 'b', 'a'], '()(+.)')):
         rots = _ref.rotations(names, sst)
         def req(k, nm):
             rn, rs = rots[k]
